@@ -95,6 +95,45 @@ def apply_history(sim, h):
             return "the step with kernel=lazy and WHDS coordinates was not refused"
         if repr(now) != repr(snap):
             return "a refused step changed the simulation: (particles, t, is_synchronized) %r -> %r" % (snap, now)
+    elif op == "flip_dt_steps":
+        # steps forward, then the same number backward with the sign of dt flipped
+        configure(sim, h["integrator"], h)
+        for sgn in (1.0, -1.0):
+            for _ in range(h.get("n", 1)):
+                sim.dt = sgn * fh(h["dt"])
+                sim.step()
+    elif op == "change_central_mass":
+        configure(sim, h.get("integrator", "whfast"), h)     # synchronizes first
+        sim.particles[0].m = sim.particles[0].m * h["factor"]
+        sim.ri_whfast.recalculate_coordinates_this_timestep = 1
+        sim.ri_mercurius.recalculate_r_crit_this_timestep = 1
+        for _ in range(h.get("n", 1)):
+            sim.dt = fh(h["dt"])
+            sim.step()
+    elif op == "replace_planet":
+        # remove the planet and add one back: N unchanged, documented protocol (synchronize before, recalculate after)
+        configure(sim, h.get("integrator", "whfast"), h)
+        p = sim.particles[1]
+        st = dict(m=p.m, x=p.x * h["sx"], y=p.y, z=p.z, vx=p.vx, vy=p.vy * h["sv"], vz=p.vz)
+        sim.remove(index=1)
+        sim.add(**st)
+        sim.ri_whfast.recalculate_coordinates_this_timestep = 1
+        sim.ri_mercurius.recalculate_r_crit_this_timestep = 1
+        for _ in range(h.get("n", 1)):
+            sim.dt = fh(h["dt"])
+            sim.step()
+    elif op == "copy":
+        sim.synchronize()
+        return ("replace", sim.copy())
+    elif op == "save_load":
+        import os, tempfile
+        sim.synchronize()
+        fd, path = tempfile.mkstemp(suffix=".bin", dir="/tmp")
+        os.close(fd); os.remove(path)
+        sim.save_to_file(path)
+        new = rebound.Simulation(path)
+        os.remove(path)
+        return ("replace", new)
     elif op == "reset_integrator":
         sim.reset_integrator()
     elif op == "synchronize":
@@ -134,7 +173,9 @@ def sim_cases(cases):
             notes = []
             for h in c.get("history", []):
                 note = apply_history(sim, h)
-                if note:
+                if isinstance(note, tuple) and note[0] == "replace":
+                    sim = note[1]
+                elif note:
                     notes.append(note[:600])
             integ = c["integrator"]
             configure(sim, integ, c)
@@ -228,9 +269,50 @@ def edge_cases(cases):
     return out
 
 
+def hvf_cases(cases):
+    """history vs fresh: simulation A goes through a history, then a FRESH simulation B is built with exactly the same
+    particles (after A.synchronize()), time, G and integrator settings; both take the same measured steps.  The WH-type
+    integrators have no legitimate memory of the past: the states must agree bit for bit."""
+    out = []
+    for c in cases:
+        try:
+            A = rebound.Simulation()
+            A.G = fh(c["G"])
+            for key in ("p0", "p1"):
+                p = [fh(v) for v in c[key]]
+                A.add(m=fh(c["m0"] if key == "p0" else c["m1"]), x=p[0], y=p[1], z=p[2], vx=p[3], vy=p[4], vz=p[5])
+            for h in c.get("history", []):
+                note = apply_history(A, h)
+                if isinstance(note, tuple) and note[0] == "replace":
+                    A = note[1]
+            integ = c["integrator"]
+            configure(A, integ, c)                 # synchronizes under the old settings, raises the recalculation flag
+            A.ri_mercurius.recalculate_r_crit_this_timestep = 1
+            A.synchronize()
+            B = rebound.Simulation()
+            B.G = A.G
+            B.t = A.t
+            for q in A.particles:
+                B.add(m=q.m, x=q.x, y=q.y, z=q.z, vx=q.vx, vy=q.vy, vz=q.vz, r=q.r)
+            configure(B, integ, c)
+            dt = fh(c["dt"])
+            resA = []; resB = []
+            for k in range(c.get("nsteps", 2)):
+                for S, res in ((A, resA), (B, resB)):
+                    S.dt = dt
+                    S.step()
+                    S.synchronize()
+                    ps = S.particles
+                    res.append({"state": [[getattr(ps[i], n).hex() for n in C6] for i in range(S.N)], "t": S.t.hex()})
+            out.append({"A": resA, "B": resB, "N": A.N})
+        except Exception as e:
+            out.append({"error": repr(e)[:300]})
+    return out
+
+
 def main():
     job = json.load(sys.stdin)
-    res = {"solver": solver_cases, "sim": sim_cases, "sync": sync_cases, "edge": edge_cases}[job["mode"]](job["cases"])
+    res = {"solver": solver_cases, "sim": sim_cases, "sync": sync_cases, "edge": edge_cases, "hvf": hvf_cases}[job["mode"]](job["cases"])
     json.dump(res, sys.stdout)
 
 
